@@ -62,7 +62,8 @@ def abstract_packages(draw, max_models=8, max_ap=5, min_wav=3, max_wav=12, apdep
             # documented per-file layouts: SED files plain or gzip-compressed, directly in seds/ or in sub-directories named
             # after the first letters of the model name; the parameter table may be parameters.fits.gz
             'sed_layout': draw(st.sampled_from(['flat', 'flat', 'flat', 'gz', 'sub', 'sub_gz', 'mixed'])),
-            'par_gz': draw(st.integers(0, 4)) == 0}
+            'par_gz': draw(st.integers(0, 4)) == 0,
+            'conf_style': draw(st.sampled_from([0, 0, 0] + list(range(pkgio.N_CONF_STYLES))))}
 
 
 @st.composite
@@ -161,7 +162,7 @@ def emit(pkg, model_dir, fmt, file_stems=None):
     stored_aps = None if pkg['apertures'] is None else [pkg['apertures'][a] for a in aidx]
     layout = pkg.get('sed_layout', 'flat') if fmt == 'v1' else 'flat'
     pkgio.write_conf(model_dir, pkg['apdep'], pkg['logd_step'], version=None if fmt == 'v1' else 2,
-                     length_subdir=2 if layout.startswith('sub') else 0)
+                     length_subdir=2 if layout.startswith('sub') else 0, style=pkg.get('conf_style', 0))
     if fmt == 'v1':
         os.mkdir(os.path.join(model_dir, 'seds'))
         for m, name in enumerate(names):
